@@ -128,7 +128,20 @@ type dscript struct {
 	prelude []stmt
 	body    []stmt
 	tree    *tree
-	guards  int // entry-point guards that are neutral in sloppy mode (spelling only)
+	guards  int    // entry-point guards that are neutral in sloppy mode (spelling only)
+	form    string // how the entry point is declared: a form that defines a global, not an arrow function (spelling only)
+	dtGuard bool   // clock-independent calls of weekdayRange / dateRange / timeRange in front (spelling only)
+}
+
+// decoForms: the declaration forms a decorated script may use (its body names `arguments`, which an arrow function lacks)
+func decoForms() []string {
+	var out []string
+	for _, f := range declForms {
+		if f.binding != 'N' && f.rhs != 'a' {
+			out = append(out, f.name)
+		}
+	}
+	return out
 }
 
 func stmtsWire(ss []stmt) string {
@@ -230,7 +243,16 @@ func (d dscript) js() string {
 		b.WriteString(s.js(""))
 	}
 	name := d.entryName()
-	b.WriteString("function " + name + "(url, host) {\n")
+	top := b.String()
+	b.Reset()
+	b.WriteString("(url, host) {\n")
+	if d.dtGuard {
+		// none of these depends on the clock: every weekday is in SUN..SAT, no weekday is called Q<n>, this year lies
+		// between 1000+n and 9000+n and is not 3000+n, every hour is in 0..23 and none is 24+n
+		b.WriteString("  var dn = host.length;\n")
+		b.WriteString("  if (!weekdayRange(\"SUN\", \"SAT\") || weekdayRange(\"Q\" + dn) || !dateRange(1000 + dn, 9000 + dn) || dateRange(3000 + dn) ||\n" +
+			"      !timeRange(0, 23) || timeRange(24 + dn) || !weekdayRange(\"MON\", \"SUN\", \"GMT\")) return \"date-time-helper-differs\";\n")
+	}
 	if d.guards&1 != 0 {
 		b.WriteString("  if (" + name + ".length !== 2) return \"arity-differs\";\n")
 	}
@@ -247,8 +269,16 @@ func (d dscript) js() string {
 		b.WriteString(s.js("  "))
 	}
 	b.WriteString(d.treeJS(d.tree, "  "))
-	b.WriteString("}\n")
-	return b.String()
+	b.WriteString("}")
+	fun := b.String()
+	f := formByName(d.form)
+	switch f.rhs {
+	case 'd':
+		return top + "function " + name + fun + "\n"
+	case 'n':
+		return top + f.decl(name, "function entryImpl"+fun)
+	}
+	return top + f.decl(name, "function "+fun)
 }
 
 // stateless: no evaluation reads what an earlier evaluation on the same VM wrote — every read of a global
@@ -351,6 +381,9 @@ func genDScript(r *core.Rand, h hint, t *tree, mode string) dscript {
 	d := dscript{tree: t, ex: r.Chance(15), guards: 0}
 	if r.Chance(50) {
 		d.guards = r.Intn(16)
+	}
+	if r.Chance(35) {
+		d.form = core.Pick(r, decoForms())
 	}
 	next := 0
 	fresh := func() int { next++; return next - 1 }
@@ -679,9 +712,13 @@ func checkDeco(ctx *core.Ctx, c decoCase) {
 		{"with-statement", "with ("}, {"duplicate-parameter-names", "pick(0"}, {"arguments.callee", "arguments.callee"},
 		{"arguments-aliasing", "arguments[0] ="}, {"this-is-global-object", "this."}, {"eval-var", "eval("},
 		{"legacy-octal-literal", " 0"}, {"own-helper-function", "() { return "}, {"typeof-undeclared", "typeof g"},
-		{"function-length", ".length !== 2"},
+		{"function-length", ".length !== 2"}, {"entry-point-let-or-const", "\nlet Find"}, {"entry-point-let-or-const", "\nconst Find"},
+		{"entry-point-assigned", "\nFindProxyForURL"}, {"entry-point-assigned", "\nthis.Find"}, {"entry-point-assigned", "\nvar Find"},
+		{"entry-point-assigned", "\nObject.defineProperty(this, \"Find"}, {"entry-point-in-block-or-function-or-eval", "\n  FindProxyForURL"},
+		{"entry-point-in-block-or-function-or-eval", "\n  var Find"}, {"entry-point-in-block-or-function-or-eval", "\n  this.Find"},
+		{"entry-point-in-block-or-function-or-eval", "\n  g.Find"}, {"entry-point-in-block-or-function-or-eval", "\neval(\"var Find"},
 	} {
-		body := c.Script[strings.Index(c.Script, "\n")+1:]
+		body := c.Script[strings.Index(c.Script, "\n"):]
 		if f.label == "legacy-octal-literal" {
 			// a digit after " 0" / "(0": 010, 07
 			found := false
